@@ -24,7 +24,7 @@ import sx
 from common import (COQ, Verdict, proof_stage, repo_blob_ids, write_evidence, TRUSTED_BASE)
 
 PROP = 'C17'
-PROOF_FILES = [f for f in ['theories/Copy.v', 'proofs/C17Proofs.v', 'proofs/EditProofs.v', 'proofs/CopyProofs.v', 'proofs/WrapProofs.v'] if os.path.exists(os.path.join(COQ, f))]
+PROOF_FILES = [f for f in ['theories/Copy.v', 'proofs/C17Proofs.v', 'proofs/EditProofs.v', 'proofs/CopyProofs.v', 'proofs/WrapProofs.v', 'proofs/C17ComposeProofs.v'] if os.path.exists(os.path.join(COQ, f))]
 
 
 def mk_scn(sc):
